@@ -257,7 +257,7 @@ def cache_cases(draw, modules=('std', 'safe'), algos=tuple(H.ALGOS), maxsizes=(1
                 backends=tuple(H.BACKENDS_ALL), weights=None, max_ops=30, min_ops=1, pool=(3, 7),
                 purges=(False, True), shapes=None, allow_default_keymap=True, ms_pos=(False,),
                 rich_args=False, info_preserving_only=True, mem_weight=0, extra=None, unhashable_ok=False, prefill_pct=0, raising_pct=0, attach_later_pct=0, confusable_pct=30,
-                tols=(None,), deeps=(False,), ignores=(None,), float_pct=0, relpath_pct=0, default_keymap_pct=17):
+                tols=(None,), deeps=(False,), ignores=(None,), float_pct=0, relpath_pct=0, default_keymap_pct=17, kms_filter=None, twin_pct=None):
     w = dict(DEFAULT_WEIGHTS)
     w.update(weights or {})
     module = draw(st.sampled_from(modules))
@@ -271,6 +271,8 @@ def cache_cases(draw, modules=('std', 'safe'), algos=tuple(H.ALGOS), maxsizes=(1
     sig = draw(st.sampled_from(shapes or SHAPES))
     has_va = bool(sig.get('varargs'))
     kms = keymap_specs_for(key_req, module, has_va, info_preserving_only, unhashable_ok=unhashable_ok)
+    if kms_filter is not None:
+        kms = [k for k in kms if kms_filter(k)] or kms
     # (source-text directory archives import entries back by name 'K_<key>': the std default's int keys qualify, the safe default's text keys do not)
     use_default = allow_default_keymap and (key_req in ('hashable', 'bindable', 'evalable') or (key_req == 'md5only' and module == 'std')) and not (has_va and info_preserving_only) \
         and draw(st.integers(0, 99)) < default_keymap_pct
@@ -304,7 +306,7 @@ def cache_cases(draw, modules=('std', 'safe'), algos=tuple(H.ALGOS), maxsizes=(1
         if b not in pool_b:
             pool_b.append(b)
     twin_pair = []
-    if key_req == 'hashable' and kkind == 'raw' and draw(st.integers(0, 9)) < (6 if (keymap and keymap.get('typed')) else 2):
+    if key_req == 'hashable' and kkind == 'raw' and draw(st.integers(0, 99)) < (twin_pct if twin_pct is not None else (60 if (keymap and keymap.get('typed')) else 20)):
         # equal-but-differently-typed values swapped between two parameters: (x=1, y=1.0) vs (x=1.0, y=1)
         cands = [b for b in pool_b if len(b.get('named', [])) + len(b.get('kwonly', [])) + len(b.get('xkw', [])) >= 2]
         if cands:
